@@ -34,6 +34,8 @@ def run(ctx, repo):
     ctx.rule('R2', 'gender -> normalize_gender and event -> upper() dominate every key use in the public grader methods')
     ctx.rule('R3', "find_age's clamping arm uses the last column index (len(ages) - 1)")
     ctx.rule('R4', 'grade roles: standard = best / factor; timed: standard / perf; field: perf / standard; timed kinds = {road, track}')
+    ctx.rule('R7', 'the wrappers wma_age_grade / wma_age_factor / wma_world_best choose the same table for the same year and by default (folded)')
+    ctx.rule('R8', 'normalize_gender maps m, M, male, Male, MALE / f, F, female, Female, FEMALE to m / f (folded)')
     ctx.rule('R6', 'memo transparency on the grader objects (they are shared between all callers)')
     ctx.rule('R5', 'JSON tables: ages strictly increasing, row lengths, one contiguous block of finite positive factors, '
                    'standards > 0, upper-case codes, both genders')
@@ -306,6 +308,69 @@ def run(ctx, repo):
     if not any(f.rule == 'R5' for f in ctx.findings):
         ctx.ok('R5', 'all JSON tables well-formed (%d factor cells)' % n_cells)
     ctx.extra['exhaustive'] = True
+    wrapper_rules(ctx, repo)
+
+
+def wrapper_rules(ctx, repo):
+    """R7: the public wrappers choose the same table for the same `year`, and their defaults choose the same table (grade = best / factor
+    / performance only holds inside one table).  R8: the gender normaliser maps the spellings of the statement to the right letter.
+    Both by constant folding of the small pure expressions involved (never by importing athlib)."""
+    from .. import fold
+    init = repo.module('athlib/__init__.py')
+    F = fold.Folder()
+    picks = {}
+    for q in ('wma_age_grade', 'wma_age_factor', 'wma_world_best'):
+        if not init.has_func(q):
+            raise AnalysisError('anchor vanished: athlib.%s' % q)
+        fn = init.func(q)
+        sel = [a for a in fn.body if isinstance(a, ast.Assign) and len(a.targets) == 1 and isinstance(a.targets[0], ast.Name)
+               and any(isinstance(x, ast.Name) and x.id in ('ag2015', 'ag2023') for x in ast.walk(a.value))]
+        ypar = [a.arg for a in fn.args.args if a.arg == 'year']
+        if not sel or not ypar:
+            raise AnalysisError('%s: table selection by year not found' % q)
+        a_ = fn.args
+        defaults = dict(zip([x.arg for x in a_.args[len(a_.args) - len(a_.defaults):]], a_.defaults))
+        dflt = defaults.get('year')
+        dv = dflt.value if isinstance(dflt, ast.Constant) else None
+        row = {}
+        for label, y in (('default', dv), ('2015', 2015), ("'2015'", '2015'), ('2023', 2023), ("'2023'", '2023')):
+            try:
+                row[label] = F.expr(sel[0].value, {'year': y, 'ag2015': 'table 2015', 'ag2023': 'table 2023', 'ag': 'table 2023'})
+            except Exception as e:
+                raise AnalysisError('%s: table selection not foldable: %s' % (q, e))
+        picks[q] = row
+    for label in ('default', '2015', "'2015'", '2023', "'2023'"):
+        vals = {q: picks[q][label] for q in picks}
+        if len(set(vals.values())) == 1:
+            ctx.ok('R7', 'year %s: all three wrappers use %s' % (label, list(vals.values())[0]))
+        else:
+            ctx.finding('R7', 'athlib/__init__.py::wrappers::table chosen for year %s' % label, 'athlib/__init__.py', init.func('wma_age_factor').lineno,
+                        'for year = %s the wrappers choose different tables (%s): the grade, the best and the factor of one call sequence come '
+                        'from different tables, so grade != (best / factor) / performance' % (label, vals), vals)
+    # R8 gender spellings
+    ag = repo.module(AGE)
+    ng = ag.func('AgeGrader.normalize_gender')
+    env_mod = {k: v for k, v in repo.folded(AGE)[0].items()}
+    fc = fold.FuncConst(ng, env_mod)
+    want = {'m': 'm', 'M': 'm', 'male': 'm', 'Male': 'm', 'MALE': 'm', 'f': 'f', 'F': 'f', 'female': 'f', 'Female': 'f', 'FEMALE': 'f'}
+    n_ok = 0
+    for sp, w in sorted(want.items()):
+        try:
+            got = fold.Folder().call(fc, [sp], {})
+        except fold._Raise:
+            got = '<raises>'
+        except fold.Unfoldable as e:
+            raise AnalysisError('normalize_gender is not foldable: %s' % e)
+        except Exception as e:
+            got = '<raises %s>' % type(e).__name__
+        if got == w:
+            n_ok += 1
+        else:
+            ctx.finding('R8', '%s::AgeGrader.normalize_gender::spelling %s' % (AGE, sp), AGE, ng.lineno,
+                        'normalize_gender(%r) gives %r, not %r: the spelling is graded with the other gender\'s table (or refused)' % (sp, got, w), sp)
+    if n_ok == len(want):
+        ctx.ok('R8', 'normalize_gender maps the %d spellings of the statement to the right letter' % n_ok)
+    ctx.count('gender spellings folded through normalize_gender', len(want))
 
 
 def age_clamps(ctx, repo, mod, rule):
